@@ -8,7 +8,7 @@ reported (and listed as known findings) separately.
 import ast
 
 from .. import terms as T
-from ..index import walk_local
+from ..index import walk_local, AnalysisError
 from ..runmodel import covers, is_wdone, is_wpend, includes_done
 from .common import src, stmt_of, trace
 
@@ -480,7 +480,7 @@ def detection_exact(ctx, rep, rule):
 
 
 # ============================================ EXIT automaton (C05 C08 C09 C11 C13)
-def exit_discipline(ctx, rep, rule_tidy, rule_shut=None, rule_nostart=None, causes=None):
+def exit_discipline(ctx, rep, rule_tidy, rule_shut=None, rule_nostart=None, causes=None, shut_even_unstarted=False):
     """no return / raise with live tasks; shutdown only after tidy; nothing started after tidy"""
     r = ctx.roles
     an, ip, out = ctx.run()
@@ -505,6 +505,21 @@ def exit_discipline(ctx, rep, rule_tidy, rule_shut=None, rule_nostart=None, caus
                       "`%s` on the %s path without the shutdown broadcast (state %s)"
                       % (src(stmt_of(e.node)), cname, ph),
                       "the run ends on this path without sending co_shutdown to its jobs", trace(e.st))
+    if shut_even_unstarted:
+        # an exit before anything was started: the jobs are still owed their co_shutdown, unless there is none
+        jobs_t = T.mk(('attr', T.SELF, r.members_attr if hasattr(r, 'members_attr') else 'jobs'))
+        for e in an.events('RET'):
+            if e.data['phase'] != 'NoTasks' or e.st.a('nstart', 0):
+                continue
+            empty = e.st.facts.get(jobs_t) is False or any(
+                v is True and k[0] == 'cmp' and k[1] == '==' and T.contains(k, jobs_t) and ('const', 0) in k
+                for k, v in e.st.facts.items())
+            n += 1
+            rep.check(empty, rule_shut, "%s exit before any start" % e.where, fn,
+                      "`%s` although the scheduler may have jobs, without the shutdown broadcast"
+                      % src(stmt_of(e.node)),
+                      "the run ends on this path without sending co_shutdown to its jobs (none of them was started, "
+                      "all of them are owed it)", trace(e.st))
     if causes is None:
         for e in an.events('RAISE'):
             if e.data['phase'] == 'Live':
@@ -691,9 +706,32 @@ def forever_confined(ctx, rep, rule):
 
 
 # ================================================================ C12
+def _eager_fallback(ctx, rep, r2):
+    """when the run cannot be explored (state explosion): the one shape of R12.2 that can be read off the
+    syntax - the loop that starts the successors must not be left early"""
+    from ..flow import _may_stop_early
+    r = ctx.roles
+    f = r.RUN
+    start = r.start_fn.name if r.start_fn is not None else None
+    for w in walk_local(f.node):
+        if not isinstance(w, ast.While):
+            continue
+        for lp in ast.walk(w):
+            if isinstance(lp, ast.For) and any(isinstance(c, ast.Call) and isinstance(c.func, ast.Attribute)
+                                               and c.func.attr == start for b in lp.body for c in ast.walk(b)):
+                rep.check(not _may_stop_early(lp), r2, "%s:%d every candidate is visited" % (f.module.relpath, lp.lineno),
+                          f.qualname, "the loop over candidate successors can stop early (`break`/`return` in `for %s in %s`)"
+                          % (src(lp.target), src(lp.iter)),
+                          "ready successors after the first are left waiting although a slot may be free")
+
+
 def eager(ctx, rep, r1, r2, r3, r4):
     r = ctx.roles
-    an, ip, out = ctx.run()
+    try:
+        an, ip, out = ctx.run()
+    except AnalysisError:
+        _eager_fallback(ctx, rep, r2)
+        raise
     fn = r.RUN.qualname
     # R12.1 all entry jobs started before the first wait
     es = entry_starts(an)
